@@ -39,11 +39,18 @@ func execNetworkSimplex(g *graph.DGraph, params graph.Params) {
 		},
 	)
 
+	// the auxiliary layers are the x coordinates of the node centers (see distCenterPoints),
+	// while n.X is the node's left side
+	minx := math.Inf(1)
 	for _, l := range g.Layers {
 		for _, n := range l.Nodes {
 			l.H = max(l.H, n.H)
-			n.X = float64(p.nodes[n].Layer)
+			n.X = float64(p.nodes[n].Layer) - n.W/2
+			minx = min(minx, n.X)
 		}
+	}
+	for _, n := range g.Nodes {
+		n.X -= minx
 	}
 }
 
